@@ -276,3 +276,57 @@ def preconf_copy_battery(v: Verdict, formats: dict, n_cases: int):
                 continue
             break
     v.coverage["preconf_copy_battery"] = hist
+
+
+# ---------------------------------------------------------------------------------- C06 / C18: copy() and the options read by both engines
+
+def copy_engine_battery(v: Verdict, prop: str):
+    """systematic: every combination of (option value of the source, value passed to copy(): not passed / True / False) for the options
+    BOTH engines read -- prefer_attrib_converters, detailed_validation -- and both converter classes: the copy must behave like a
+    converter constructed with the resulting options, and a Converter copy like a BaseConverter copy (C06), on a class whose attribute
+    has a field converter AND a registered hook for its type (so that prefer_attrib_converters decides what the converter receives)."""
+    import itertools
+    from cattrs import BaseConverter, Converter
+    R = attrs.make_class("CER", {"value": attrs.field(type=int, converter=lambda x: ("K", x)), "n": attrs.field(type=int, default=0)})
+    hist = {"cases": 0}
+
+    def setup(c):
+        c.register_structure_hook(int, lambda val, _t: ("H", val))
+        return c
+
+    def observe(c):
+        try:
+            r = c.structure({"value": 5, "n": 1}, R)
+            return ("ok", repr(r.value))
+        except Exception as e:      # noqa
+            return ("err", type(e).__name__)
+    for prefer0, prefer1, dv0, dv1 in itertools.product((False, True), (None, False, True), (False, True), (None, False, True)):
+        final = {"prefer_attrib_converters": prefer0 if prefer1 is None else prefer1, "detailed_validation": dv0 if dv1 is None else dv1}
+        changes = {k: val for k, val in (("prefer_attrib_converters", prefer1), ("detailed_validation", dv1)) if val is not None}
+        res = {}
+        for cls in (Converter, BaseConverter):
+            src = setup(cls(prefer_attrib_converters=prefer0, detailed_validation=dv0))
+            for via in ("copy()", "copy of a used converter"):
+                if via != "copy()":
+                    observe(src)
+                cp = src.copy(**changes)
+                fresh = setup(cls(**final))
+                hist["cases"] += 1
+                desc = {"battery": "COPY-ENGINE", "converter": cls.__name__, "source_options": {"prefer_attrib_converters": prefer0, "detailed_validation": dv0},
+                        "steps": [f"{cls.__name__}(prefer_attrib_converters={prefer0}, detailed_validation={dv0})", "register_structure_hook(int, H)"] + (["structure(payload, CER)"] if via != "copy()" else []) + [f"copy({changes})"],
+                        "class": "CER(value: int = field(converter=K), n: int = 0)", "payload": "{'value': 5, 'n': 1}"}
+                v.count(repr(("copyengine", prop, desc)), True)
+                a, b = observe(cp), observe(fresh)
+                res[(cls.__name__, via)] = a
+                if a != b:
+                    v.violation({"C06": "a copied converter does not treat field converters like a converter constructed with the resulting options",
+                                 "C18": "a copied converter behaves differently from a converter constructed with the resulting options and the same registrations"}.get(prop, "copy differs"),
+                                {**desc, "resulting_options": final, "copy": a, "constructed": b})
+        if prop == "C06":
+            for via in ("copy()", "copy of a used converter"):
+                if res.get(("Converter", via)) != res.get(("BaseConverter", via)):
+                    v.violation("Converter and BaseConverter disagree on acceptance or on the instance",
+                                {"battery": "COPY-ENGINE", "source_options": {"prefer_attrib_converters": prefer0, "detailed_validation": dv0}, "copy_arguments": changes, "via": via,
+                                 "class": "CER(value: int = field(converter=K), n: int = 0)", "payload": "{'value': 5, 'n': 1}",
+                                 "converter_copy": res.get(("Converter", via)), "base_converter_copy": res.get(("BaseConverter", via))})
+    v.coverage["copy_engine_battery"] = hist
